@@ -5,7 +5,9 @@
 package lib
 
 import (
+	"runtime"
 	"sync"
+	"sync/atomic"
 	"time"
 )
 
@@ -356,6 +358,55 @@ func AfterFuncOnce(n int) int {
 	return v
 }
 
+// CondQueue: producer / consumer over a slice guarded by a mutex and a sync.Cond.
+func CondQueue(n int) int {
+	var mu sync.Mutex
+	c := sync.NewCond(&mu)
+	var q []int
+	closed := false
+	go func() {
+		for i := 1; i <= n; i++ {
+			mu.Lock()
+			q = append(q, i)
+			mu.Unlock()
+			c.Signal()
+		}
+		mu.Lock()
+		closed = true
+		mu.Unlock()
+		c.Broadcast()
+	}()
+	s := 0
+	for {
+		mu.Lock()
+		for len(q) == 0 && !closed {
+			c.Wait()
+		}
+		if len(q) == 0 && closed {
+			mu.Unlock()
+			return s
+		}
+		s += q[0]
+		q = q[1:]
+		mu.Unlock()
+	}
+}
+
+// SpinHandoff: a goroutine publishes a value through an atomic flag; the caller polls it
+// with runtime.Gosched (correct, if inelegant).
+func SpinHandoff(k int) int {
+	var ready atomic.Bool
+	v := 0
+	go func() {
+		v = k * 3
+		ready.Store(true)
+	}()
+	for !ready.Load() {
+		runtime.Gosched()
+	}
+	return v
+}
+
 // ---------------- defective ----------------
 
 var racy int
@@ -577,4 +628,37 @@ func ExpiringSquare(k int) int {
 	ttlMap[k] = &ttlEntry{val: v, expires: time.Now().Add(time.Minute)}
 	ttlMu.Unlock()
 	return v
+}
+
+// CondIfNotFor: two consumers wait with `if` instead of `for`; after a Broadcast both
+// proceed although only one item was queued, and the second one finds the queue empty.
+func CondIfNotFor(k int) int {
+	var mu sync.Mutex
+	c := sync.NewCond(&mu)
+	var q []int
+	got := make(chan int, 2)
+	for w := 0; w < 2; w++ {
+		go func() {
+			mu.Lock()
+			if len(q) == 0 {
+				c.Wait()
+			}
+			v := -1000
+			if len(q) > 0 {
+				v = q[0]
+				q = q[1:]
+			}
+			mu.Unlock()
+			got <- v
+		}()
+	}
+	mu.Lock()
+	q = append(q, k)
+	mu.Unlock()
+	c.Broadcast()
+	mu.Lock()
+	q = append(q, k)
+	mu.Unlock()
+	c.Broadcast()
+	return <-got + <-got
 }
